@@ -272,9 +272,13 @@ def ob_read_zoom_headers(ctx, res):
         res.fail("zoomHeaders/bufsize", fn, "zoom directory buffer must be zoom_levels * 24 bytes")
     m, big, lit = ms[0]
     for arm, en in ((big, "be"), (lit, "le")):
-        loops = [n for n in walk_no_nested_fn(arm["body"]) if n.k == "for"]
-        if len(loops) != 1 or "zoom_levels" not in up(loops[0]["iter"]):
-            res.fail("zoomHeaders[%s]/loop" % en, arm, "one loop over 0..zoom_levels expected")
+        from ..astq import iter_loops
+        loops = iter_loops(arm["body"])
+        if len(loops) != 1:
+            res.undecided("zoomHeaders[%s]/loop" % en, arm, "expected one per-level loop (a `for` or an iterator closure), found %d" % len(loops))
+            continue
+        if "zoom_levels" not in up(loops[0]["iter"]):
+            res.fail("zoomHeaders[%s]/loop" % en, arm, "the directory must be read zoom_levels times; the loop runs over `%s`" % up(loops[0]["iter"])[:60])
             continue
         takes = _arm_reads_ok(res, "zoomHeader[%s]" % en, arm, F.ZOOM_HEADER, en)
         if takes is None:
